@@ -138,7 +138,7 @@ def observe(case: dict, dtype: str = "float64") -> dict:
             A = A.t().contiguous().t()
     A_before = A.clone()
     root = Fraction(case["p"], case["q"])
-    rec: dict = {"eigh": [], "iter": []}
+    rec: dict = {"eigh": [], "iter": [], "iter_M": []}
     real_eig = mf.matrix_eigenvalue_decomposition
     real_newton = mf._matrix_inverse_root_newton
     real_ho = mf._matrix_inverse_root_higher_order
@@ -152,6 +152,7 @@ def observe(case: dict, dtype: str = "float64") -> dict:
         def w(*a, **kw):
             out = real(*a, **kw)
             rec["iter"].append((out[2].name, int(out[3]), float(out[4])))
+            rec["iter_M"].append(out[1].detach().clone())
             return out
         return w
 
@@ -178,6 +179,7 @@ def observe(case: dict, dtype: str = "float64") -> dict:
             rec["iter"] = rec["iter"][:1]
     obs["eigh"] = rec["eigh"]
     obs["iter"] = rec["iter"]
+    obs["iter_M"] = rec["iter_M"][:len(rec["iter"])]
     return obs
 
 
@@ -310,6 +312,25 @@ ROOTS = [(1, 1), (2, 1), (3, 1), (4, 1), (8, 1), (3, 2), (4, 3), (5, 2), (2, 3),
 
 ROOTS_EXTRA = [(16, 1), (10, 1), (100, 1), (1, 2), (7, 5), (6, 1)]
 MULTIPLIERS = [1.82, 0.5, 1.5, 3.0, 0.9]
+AWKWARD_MULTIPLIERS = [1.777, 1.4142, 1.2345678]      # root / multiplier is not a ratio with a small denominator
+
+
+def awkward_roots(rng, count: int) -> list[tuple[int, int]]:
+    """Roots exactly as the optimizer builds them, Fraction(r / exponent_multiplier), from multipliers with many significant digits, and
+    roots Fraction(1 / e) whose exponent e IS a binary32 number (so that not even the binary32 rounding of the exponent blurs the reference)."""
+    import struct
+    out = []
+    mults = AWKWARD_MULTIPLIERS + [rng.uniform(1.0, 2.0) for _ in range(3)]
+    i = 0
+    while len(out) < count:
+        if i % 2 == 0:
+            out.append(multiplier_root((2, 4, 6)[(i // 2) % 3], mults[(i // 2) % len(mults)]))
+        else:
+            e32 = struct.unpack("f", struct.pack("f", rng.uniform(0.2, 0.95)))[0]
+            f = Fraction(1.0 / e32)
+            out.append((f.numerator, f.denominator))
+        i += 1
+    return out
 
 
 def multiplier_root(r: int, mult: float) -> tuple[int, int]:
